@@ -381,13 +381,19 @@ impl OutgoingDataFlowController for StreamFlowController {
                 .request_delivery(self.max_stream_data);
         }
 
+        // Never reserve connection credit for bytes the stream window does not
+        // allow us to send: the reservation is reported to the peer as the
+        // final size of a RESET_STREAM and must therefore stay within
+        // `max_stream_data`.
+        let connection_end_offset = core::cmp::min(end_offset, self.max_stream_data);
+
         self.highest_requested_connection_flow_control_window = core::cmp::max(
-            end_offset,
+            connection_end_offset,
             self.highest_requested_connection_flow_control_window,
         );
         self.try_acquire_connection_window();
 
-        if end_offset > self.acquired_connection_flow_controller_window {
+        if connection_end_offset > self.acquired_connection_flow_controller_window {
             // Can't send due to being blocked on the connection flow control window
             self.state = StreamFlowControllerState::BlockedOnConnectionWindow;
         }
